@@ -173,6 +173,13 @@ func (st *State) callFn(caller *frame, pos token.Pos, fn *ssa.Function, args []V
 	if fn.Name() == "init" && fn.Pkg != nil && fn.Signature.Recv() == nil && !st.eng.interpPkg(fn.Pkg.Pkg.Path()) {
 		return nil
 	}
+	if st.faultsOn && st.eng.FaultSites[fn.String()] {
+		name := fn.String()
+		if st.Branch(st.fresh("fault:"+name, 0)) {
+			st.faultsHit = append(st.faultsHit, name)
+			panic(&goPanic{Val: Iface{T: types.Typ[types.String], V: "injected failure in " + name}, Kind: "explicit", Msg: "injected failure in " + name})
+		}
+	}
 	if !st.isInterp(fn) {
 		return st.external(caller, fn, args)
 	}
